@@ -5,6 +5,7 @@ import (
 	"math"
 	"strconv"
 	"strings"
+	"time"
 
 	"verif/internal/vp"
 )
@@ -72,6 +73,38 @@ func (t template) wanted(n int, tier vp.Tier, sanitizer bool) bool {
 	}
 	return false
 }
+
+func encI(n int64) string   { return "i:" + strconv.FormatInt(n, 10) }
+func encF(f float64) string { return "f:" + strconv.FormatUint(math.Float64bits(f), 16) }
+func encB(b bool) string {
+	if b {
+		return "b:true"
+	}
+	return "b:false"
+}
+
+// seq joins f(1)..f(n) with sep.
+func seq(n int, sep string, f func(i int) string) string {
+	var b strings.Builder
+	for i := 1; i <= n; i++ {
+		if i > 1 {
+			b.WriteString(sep)
+		}
+		b.WriteString(f(i))
+	}
+	return b.String()
+}
+
+func itoa(i int) string { return strconv.Itoa(i) }
+
+func names(prefix string, n int) string {
+	return seq(n, ",", func(i int) string { return prefix + itoa(i) })
+}
+func ints(n int) string { return seq(n, ",", itoa) }
+
+func rep(s string, n int) string { return strings.Repeat(s, n) }
+
+func tri(n int) int64 { return int64(n) * int64(n+1) / 2 }
 
 var templates = []template{
 	// ---- registers: locals, upvalues, parameters
@@ -400,7 +433,7 @@ var templates = []template{
 
 func runLimitTemplates(x *exec) {
 	c := x.c
-	x.caseWall = 600 * 1e9
+	x.caseWall = 1800 * time.Second
 	k := 0
 	for _, t := range templates {
 		for _, n := range limitNs {
@@ -415,7 +448,89 @@ func runLimitTemplates(x *exec) {
 			c.Flush(false)
 		}
 	}
+	nb := len(boundaryTemplates)
+	if c.Tier == vp.Quick {
+		nb = 4
+		if x.variant != "plain" {
+			nb = 1
+		}
+	}
+	for _, name := range boundaryTemplates[:nb] {
+		for _, t := range templates {
+			if t.name != name {
+				continue
+			}
+			k++
+			if c.Mine(k) {
+				x.boundarySearch(t)
+				c.Flush(false)
+			}
+		}
+	}
 }
+
+// boundarySearch finds by bisection the largest N for which the template still
+// compiles (the function just fits the 16-bit program counter / jump offsets)
+// and judges the template at N-1, N and N+1: the longest jumps the encoding
+// allows must still land where the manual says.
+func (x *exec) boundarySearch(t template) {
+	c := x.c
+	compiles := func(n int) (bool, bool) {
+		src, _ := t.gen(n)
+		x.begin(fmt.Sprintf("limit %s N=%d (boundary search)", t.name, n), src)
+		c.Eval(1)
+		s := x.newSess(false)
+		var res result
+		r := x.guarded(func() result {
+			_, res := compile(s, "limit", src)
+			return res
+		})
+		res = r
+		if res.kind != kHang {
+			x.closeSess(s)
+		}
+		if res.kind == kPanic {
+			c.Violation("panic", fmt.Sprintf("limit %s N=%d compile %s", t.name, n, panicSig(res.panicMsg, res.stack)),
+				fmt.Sprintf("template %s with N=%d: a Go panic escaped the compile entry point: %s\n%s", t.name, n, res.panicMsg, res.stack), "")
+			return false, false
+		}
+		return res.kind == kOK, res.kind != kHang
+	}
+	lo, hi := 300, 40000
+	okLo, fine := compiles(lo)
+	if !fine {
+		return
+	}
+	okHi, fine := compiles(hi)
+	if !fine {
+		return
+	}
+	if !okLo || okHi {
+		c.Feature("boundary/none-in-range/"+t.name, 1)
+		return
+	}
+	for hi-lo > 1 {
+		mid := (lo + hi) / 2
+		ok, fine := compiles(mid)
+		if !fine {
+			return
+		}
+		if ok {
+			lo = mid
+		} else {
+			hi = mid
+		}
+	}
+	c.Feature("boundary/found/"+t.name, 1)
+	c.Feature(fmt.Sprintf("boundary/%s/largest-compilable-N=%d", t.name, lo), 1)
+	for _, n := range []int{lo - 1, lo, lo + 1} {
+		x.limitCase(t, n)
+	}
+}
+
+var boundaryTemplates = []string{"jump-while", "jump-if-skip", "jump-goto-backward", "jump-for", "jump-if-else", "jump-else-taken", "jump-repeat",
+	"jump-break", "jump-for-in", "jump-while-skip", "jump-goto-forward", "jump-and-skip", "jump-or-skip", "elseif-branches", "elseif-fallthrough",
+	"statements", "statements-in-function", "call-chain", "method-chain", "labels-gotos", "tbc-blocks", "locals-in-blocks"}
 
 func (x *exec) limitCase(t template, n int) {
 	c := x.c
